@@ -78,6 +78,7 @@ type Schema struct {
 	SynTerms    []string   `json:"-"`
 	Vecs        []VecOpt   `json:"vecs,omitempty"`
 	BigValues   bool       `json:"big,omitempty"`
+	IDDV        bool       `json:"iddv,omitempty"` // the _id field carries doc values (consistent over the whole case)
 	nextID      int
 }
 
@@ -145,6 +146,9 @@ func GenSchema(t *rapid.T, o SchemaOpts) *Schema {
 		}
 	}
 	s.BigValues = Chance(t, "bigValues", 5)
+	if o.Vectors != 2 {
+		s.IDDV = Chance(t, "idDV", 20)
+	}
 	return s
 }
 
@@ -266,7 +270,7 @@ func (s *Schema) NewID(t *rapid.T, label string) string {
 }
 
 func (s *Schema) GenDoc(t *rapid.T, label string, id string) spec.DocSpec {
-	d := spec.DocSpec{ID: spec.B(id), IDLast: rapid.Bool().Draw(t, label+"idLast")}
+	d := spec.DocSpec{ID: spec.B(id), IDLast: rapid.Bool().Draw(t, label+"idLast"), IDDV: s.IDDV}
 	for i := range s.Fields {
 		fo := &s.Fields[i]
 		if Chance(t, fmt.Sprintf("%sf%dabsent", label, i), 25) {
@@ -345,20 +349,20 @@ func (s *Schema) GenSynDoc(t *rapid.T, label string, id string) spec.DocSpec {
 		}
 		f.Syn = append(f.Syn, def)
 	}
-	return spec.DocSpec{ID: spec.B(id), IDLast: true, Fields: []spec.FieldSpec{f}}
+	return spec.DocSpec{ID: spec.B(id), IDLast: true, IDDV: s.IDDV, Fields: []spec.FieldSpec{f}}
 }
 
 // ---------------------------------------------------------------------------
 // batches
 
 type BatchOpts struct {
-	MaxDocs   int  // explicit documents (default 8)
-	AllowWide bool // allow the parametric wide part
+	MaxDocs    int  // explicit documents (default 8)
+	AllowWide  bool // allow the parametric wide part
 	AllowEmpty bool
-	WidePct   int // percentage of batches with a wide part (default 6)
-	MinDocs   int
-	DupIDPct  int // percentage of batches with one duplicated id
-	SynPct    int // percentage of synonym documents when the schema has thesauri (default 35)
+	WidePct    int // percentage of batches with a wide part (default 6)
+	MinDocs    int
+	DupIDPct   int // percentage of batches with one duplicated id
+	SynPct     int // percentage of synonym documents when the schema has thesauri (default 35)
 }
 
 func (s *Schema) GenBatch(t *rapid.T, label string, o BatchOpts) *spec.BatchSpec {
@@ -403,6 +407,7 @@ func (s *Schema) GenBatch(t *rapid.T, label string, o BatchOpts) *spec.BatchSpec
 		}
 		if Chance(t, label+"wide", pct) {
 			b.Wide = GenWide(t, label+"w")
+			b.Wide.IDDV = s.IDDV
 		}
 	}
 	return b
